@@ -23,7 +23,9 @@ import (
 	"sigs.k8s.io/karpenter/pkg/cloudprovider"
 	fakecp "sigs.k8s.io/karpenter/pkg/cloudprovider/fake"
 	ncdisruption "sigs.k8s.io/karpenter/pkg/controllers/nodeclaim/disruption"
+	"sigs.k8s.io/karpenter/pkg/controllers/nodeclaim/lifecycle"
 	nphash "sigs.k8s.io/karpenter/pkg/controllers/nodepool/hash"
+	provsched "sigs.k8s.io/karpenter/pkg/controllers/provisioning/scheduling"
 	"sigs.k8s.io/karpenter/pkg/operator/options"
 	"sigs.k8s.io/karpenter/pkg/scheduling"
 	"sigs.k8s.io/karpenter/pkg/test"
@@ -71,14 +73,18 @@ type ProvJ struct {
 }
 
 type StepJ struct {
-	K        string  `json:"k"` // editPool | deletePool | hashctl | label | ann | launched | prov | advance | reconcile
+	K        string  `json:"k"` // editPool | deletePool | hashctl | label | ann | launched | prov | advance | reconcile | create
 	Pool     *PoolJ  `json:"pool,omitempty"`
-	Claim    string  `json:"claim,omitempty"`  // label / launched / reconcile; ann: "" = the NodePool
-	Key      string  `json:"key,omitempty"`    // label key; ann: "hash" | "version"
-	Value    *string `json:"value,omitempty"`  // nil = delete
+	Claim    string  `json:"claim,omitempty"` // label / launched / reconcile; ann: "" = the NodePool
+	Key      string  `json:"key,omitempty"`   // label key; ann: "hash" | "version"
+	Value    *string `json:"value,omitempty"` // nil = delete
 	Launched bool    `json:"launched,omitempty"`
 	Prov     *ProvJ  `json:"prov,omitempty"`
 	Min      int64   `json:"min,omitempty"` // advance (minutes)
+	// create: the provisioner builds NodeClaim `claim` from the NodePool as it is stored at that moment (the REAL
+	// NewNodeClaimTemplate + ToNodeClaim), the provider answers Create with these labels (PopulateNodeClaimDetails),
+	// `launched` says whether the launch completed
+	Labels [][2]string `json:"labels,omitempty"`
 }
 
 type DriftIn struct {
@@ -260,6 +266,10 @@ func implDrift(raw json.RawMessage) (any, error) {
 	hashCtl := nphash.NewController(c, cp)
 	driftCtl := ncdisruption.NewController(clk, c, cp)
 
+	names := []string{}
+	for _, cj := range in.Claims {
+		names = append(names, cj.Name)
+	}
 	snapshot := func(stepErr bool) (Snap, error) {
 		s := Snap{Err: stepErr, Claims: []ClaimSnap{}}
 		cur := &v1.NodePool{}
@@ -268,12 +278,12 @@ func implDrift(raw json.RawMessage) (any, error) {
 			s.PoolHash, s.PoolVersion = getAnn(cur, v1.NodePoolHashAnnotationKey), getAnn(cur, v1.NodePoolHashVersionAnnotationKey)
 			s.HashNow = cur.Hash()
 		}
-		for _, cj := range in.Claims {
+		for _, name := range names {
 			nc := &v1.NodeClaim{}
-			if err := c.Get(ctx, types.NamespacedName{Name: cj.Name}, nc); err != nil {
+			if err := c.Get(ctx, types.NamespacedName{Name: name}, nc); err != nil {
 				return s, err
 			}
-			cs := ClaimSnap{Name: cj.Name, Labels: [][2]string{}, Hash: getAnn(nc, v1.NodePoolHashAnnotationKey), Version: getAnn(nc, v1.NodePoolHashVersionAnnotationKey)}
+			cs := ClaimSnap{Name: name, Labels: [][2]string{}, Hash: getAnn(nc, v1.NodePoolHashAnnotationKey), Version: getAnn(nc, v1.NodePoolHashVersionAnnotationKey)}
 			for k, v := range nc.Labels {
 				cs.Labels = append(cs.Labels, [2]string{k, v})
 			}
@@ -298,7 +308,18 @@ func implDrift(raw json.RawMessage) (any, error) {
 	out = append(out, s0)
 	for _, st := range in.Steps {
 		stepErr := false
+		// a step on a NodeClaim that was never created (its create step found no NodePool) does nothing
+		if st.Claim != "" && st.K != "create" {
+			known := false
+			for _, n := range names {
+				known = known || n == st.Claim
+			}
+			if !known {
+				st.K = "noop"
+			}
+		}
 		switch st.K {
+		case "noop":
 		case "editPool":
 			cur := &v1.NodePool{}
 			if err := c.Get(ctx, types.NamespacedName{Name: in.PoolName}, cur); err == nil {
@@ -393,6 +414,44 @@ func implDrift(raw json.RawMessage) (any, error) {
 			}
 			if _, err := driftCtl.Reconcile(ctx, nc); err != nil {
 				stepErr = true
+			}
+		case "create":
+			cur := &v1.NodePool{}
+			exists := false
+			for _, n := range names {
+				exists = exists || n == st.Claim
+			}
+			if err := c.Get(ctx, types.NamespacedName{Name: in.PoolName}, cur); err == nil && !exists {
+				// what the provisioner does for every NodePool of a scheduling pass, and for the NodeClaims it writes
+				nct := provsched.NewNodeClaimTemplate(cur)
+				nct.InstanceTypeOptions = cp.InstanceTypes
+				nc := nct.ToNodeClaim()
+				nc.GenerateName, nc.Name = "", st.Claim
+				nc.UID = types.UID("created-" + st.Claim)
+				nc.CreationTimestamp = metav1.NewTime(clk.Now())
+				if err := c.Create(ctx, nc); err != nil {
+					return nil, err
+				}
+				// the launch: the provider's answer carries its labels and leaves the annotations alone
+				retrieved := &v1.NodeClaim{ObjectMeta: metav1.ObjectMeta{Name: nc.Name, Labels: toMap(st.Labels), Annotations: nc.DeepCopy().Annotations},
+					Status: v1.NodeClaimStatus{ProviderID: "fake://" + nc.Name}}
+				if retrieved.Labels == nil {
+					retrieved.Labels = map[string]string{}
+				}
+				nc = lifecycle.PopulateNodeClaimDetails(nc, retrieved)
+				if err := c.Update(ctx, nc); err != nil {
+					return nil, err
+				}
+				nc.Status.ProviderID = retrieved.Status.ProviderID
+				if st.Launched {
+					nc.StatusConditions().SetTrue(v1.ConditionTypeLaunched)
+				} else {
+					nc.StatusConditions().SetUnknownWithReason(v1.ConditionTypeLaunched, "LaunchFailed", "injected")
+				}
+				if err := c.Status().Update(ctx, nc); err != nil {
+					return nil, err
+				}
+				names = append(names, st.Claim)
 			}
 		default:
 			return nil, fmt.Errorf("bad step %q", st.K)
@@ -565,6 +624,25 @@ func genClaimLabels(r *rand.Rand, poolName string, exprs []world.MinExpr, wellFo
 	return out
 }
 
+// genProviderLabels: what the provider answers Create with — instance type, zone, capacity type, architecture (admitted by
+// the NodePool's requirements on those keys when wellFormed), now and then a reservation, a deprecated alias, or a
+// custom key the NodeClaim resolves itself (the NodeClaim's own label must win).
+func genProviderLabels(r *rand.Rand, exprs []world.MinExpr, wellFormed bool) [][2]string {
+	out := [][2]string{}
+	for _, kv := range genClaimLabels(r, "", exprs, wellFormed) {
+		switch kv[0] {
+		case v1.NodePoolLabelKey:
+			continue
+		case "team", "tier", "example.com/n":
+			if r.Float64() < 0.8 {
+				continue
+			}
+		}
+		out = append(out, kv)
+	}
+	return out
+}
+
 func genProv(r *rand.Rand) ProvJ {
 	p := ProvJ{ITs: []ITJ{}}
 	for _, name := range dITs {
@@ -691,18 +769,72 @@ func genDrift(r *rand.Rand, t core.Tier) any {
 		nSteps = 1 + r.IntN(14)
 	}
 	cur := in.Pool
-	claimName := func() string { return in.Claims[r.IntN(len(in.Claims))].Name }
+	names := []string{}
+	for _, c := range in.Claims {
+		names = append(names, c.Name)
+	}
+	claimName := func() string { return names[r.IntN(len(names))] }
+	// is the NodePool's annotation (possibly) behind its template? A NodeClaim created while it is, and looked at by the
+	// disruption controller before the hash controller caught up, is transiently NodePoolDrifted (the window the property
+	// is not read for: no verdict of the specification, only model vs implementation): the hash controller mostly runs
+	// first, so that the verdict "created from the edited template => not drifted" is exercised.
+	stale := in.PoolHash == nil || *in.PoolHash != "$hash" || in.PoolVersion == nil || *in.PoolVersion != v1.NodePoolHashVersion
+	create := func() StepJ {
+		n := fmt.Sprintf("new-%d", len(names)-len(in.Claims))
+		names = append(names, n)
+		return StepJ{K: "create", Claim: n, Launched: r.Float64() < 0.93,
+			Labels: genProviderLabels(r, cur.Template.Requirements, r.Float64() < 0.85)}
+	}
+	afterCreate := func(n string) {
+		if stale && r.Float64() >= 0.15 {
+			in.Steps = append(in.Steps, StepJ{K: "hashctl"})
+			stale = false
+		}
+		if r.Float64() < 0.7 {
+			in.Steps = append(in.Steps, StepJ{K: "reconcile", Claim: n})
+		}
+	}
+	// the interleaving "the provisioner runs between a template edit and the hash controller": NodePool stamped ->
+	// drift-relevant (or non-drifting) edit -> NodeClaim created from the edited NodePool -> hash controller -> reconcile
+	if r.Float64() < 0.12 {
+		if r.Float64() < 0.7 {
+			in.Steps = append(in.Steps, StepJ{K: "hashctl"})
+			stale = false
+		}
+		nw := clonePool(cur)
+		if r.Float64() < 0.75 {
+			applySome(r, hashedEdits(), &nw)
+			nw.Template.NodeClassRef.Group, nw.Template.NodeClassRef.Kind = cur.Template.NodeClassRef.Group, cur.Template.NodeClassRef.Kind
+			stale = true
+		} else {
+			applySome(r, ignoredEdits()[4:], &nw)
+		}
+		apiNormalize(&nw)
+		cur = nw
+		in.Steps = append(in.Steps, StepJ{K: "editPool", Pool: &nw})
+		st := create()
+		in.Steps = append(in.Steps, st)
+		afterCreate(st.Claim)
+		if r.Float64() < 0.5 {
+			in.Steps = append(in.Steps, StepJ{K: "hashctl"}, StepJ{K: "reconcile", Claim: st.Claim})
+			stale = false
+		}
+	}
 	for i := 0; i < nSteps; i++ {
 		var st StepJ
 		switch x := r.Float64(); {
-		case x < 0.30:
+		case x < 0.27:
 			st = StepJ{K: "reconcile", Claim: claimName()}
-		case x < 0.42:
+		case x < 0.34:
+			st = create()
+		case x < 0.44:
 			st = StepJ{K: "hashctl"}
+			stale = false
 		case x < 0.56:
 			nw := clonePool(cur)
 			switch y := r.Float64(); {
 			case y < 0.4:
+				stale = true
 				applySome(r, hashedEdits(), &nw)
 				// the node class reference stays a supported one (group/kind are immutable in the CRD)
 				nw.Template.NodeClassRef.Group, nw.Template.NodeClassRef.Kind = cur.Template.NodeClassRef.Group, cur.Template.NodeClassRef.Kind
@@ -731,6 +863,9 @@ func genDrift(r *rand.Rand, t core.Tier) any {
 			if r.Float64() < 0.6 {
 				st.Claim = claimName()
 			}
+			if st.Claim == "" {
+				stale = true
+			}
 			if st.Key == "hash" {
 				switch y := r.Float64(); {
 				case y < 0.4 && st.Claim != "":
@@ -752,6 +887,10 @@ func genDrift(r *rand.Rand, t core.Tier) any {
 			st = StepJ{K: "deletePool"}
 		}
 		in.Steps = append(in.Steps, st)
+		if st.K == "create" {
+			afterCreate(st.Claim)
+			continue
+		}
 		if st.K != "reconcile" && st.K != "hashctl" && r.Float64() < 0.5 {
 			in.Steps = append(in.Steps, StepJ{K: "reconcile", Claim: claimName()})
 		}
@@ -775,6 +914,42 @@ func driftFeatures(in *DriftIn, impl any) []string {
 	}
 	m, _ := impl.(map[string]any)
 	snaps, _ := m["snaps"].([]any)
+	// in which state of the NodePool's annotation are NodeClaims created, and are they looked at afterwards
+	created := map[string]bool{}
+	for i, st := range in.Steps {
+		if i >= len(snaps) {
+			break
+		}
+		pre, _ := snaps[i].(map[string]any)
+		switch st.K {
+		case "create":
+			if p, _ := pre["poolPresent"].(bool); !p {
+				l = append(l, "create:no-nodepool")
+				continue
+			}
+			created[st.Claim] = true
+			h, ok := pre["poolHash"].(string)
+			switch {
+			case !ok:
+				l = append(l, "create:nodepool-not-annotated")
+			case h != pre["hashNow"]:
+				l = append(l, "create:nodepool-annotation-stale")
+			default:
+				l = append(l, "create:nodepool-annotation-current")
+			}
+		case "hashctl":
+			for n := range created {
+				if h, ok := pre["poolHash"].(string); ok && h != pre["hashNow"] {
+					l = append(l, "hashctl-catches-up-after-create")
+					_ = n
+				}
+			}
+		case "reconcile":
+			if created[st.Claim] {
+				l = append(l, "reconcile-of-created-claim")
+			}
+		}
+	}
 	reasons := map[string]bool{}
 	for i, s := range snaps {
 		sm, _ := s.(map[string]any)
@@ -807,7 +982,7 @@ func driftFeatures(in *DriftIn, impl any) []string {
 func driftOp() *core.Op {
 	return &core.Op{
 		Name: "c15.drift",
-		Doc:  "histories on the fake client: the real nodepool/hash controller and the real nodeclaim/disruption controller (drift sub-reconciler) between edits of the NodePool template/requirements, NodeClaim labels, hash / hash-version annotations, the Launched condition, provider answers (instance types, offerings, IsDrifted, errors) and the clock; every object's annotations and Drifted condition after every step vs the Lean model, and the drift specification evaluated on what the real controllers did",
+		Doc:  "histories on the fake client: the real nodepool/hash controller and the real nodeclaim/disruption controller (drift sub-reconciler) between edits of the NodePool template/requirements, NodeClaim labels, hash / hash-version annotations, the Launched condition, provider answers (instance types, offerings, IsDrifted, errors), the clock, and NodeClaims CREATED in mid-history from the NodePool as stored at that moment (real NewNodeClaimTemplate + ToNodeClaim + PopulateNodeClaimDetails), also between a template edit and the hash controller's next run; every object's labels, annotations and Drifted condition after every step vs the Lean model, and the drift specification evaluated on what the real code did (a created NodeClaim carries the hash of the template it was created from, and is not reported Drifted for its hash unless the template changed afterwards)",
 		N: func(t core.Tier) int {
 			if t == core.Thorough {
 				return 20000
@@ -846,29 +1021,41 @@ func driftOp() *core.Op {
 			var in DriftIn
 			json.Unmarshal(raw, &in)
 			var out []any
+			// a step may only name a NodeClaim that exists (initially or created by an earlier step)
+			valid := func(c *DriftIn) bool {
+				known := map[string]bool{}
+				for _, cl := range c.Claims {
+					known[cl.Name] = true
+				}
+				for _, st := range c.Steps {
+					if st.K == "create" {
+						known[st.Claim] = true
+					} else if st.Claim != "" && !known[st.Claim] {
+						return false
+					}
+				}
+				return true
+			}
 			for _, s := range core.ShrinkList(in.Steps) {
 				if len(s) == 0 {
 					continue
 				}
 				c := in
 				c.Steps = s
-				out = append(out, c)
+				if valid(&c) {
+					out = append(out, c)
+				}
 			}
-			if len(in.Claims) > 1 {
+			// (a history that creates its own NodeClaims needs no initial one)
+			created := false
+			for _, st := range in.Steps {
+				created = created || st.K == "create"
+			}
+			if len(in.Claims) > 1 || (created && len(in.Claims) > 0) {
 				for i := range in.Claims {
 					c := in
 					c.Claims = append(append([]ClaimJ{}, in.Claims[:i]...), in.Claims[i+1:]...)
-					used := map[string]bool{}
-					for _, cl := range c.Claims {
-						used[cl.Name] = true
-					}
-					ok := true
-					for _, st := range c.Steps {
-						if st.Claim != "" && !used[st.Claim] {
-							ok = false
-						}
-					}
-					if ok {
+					if valid(&c) {
 						out = append(out, c)
 					}
 				}
